@@ -50,6 +50,13 @@ def from_f64_ok(F, m):
         okg, why = guard_ok(e["?g"], e["?t"])
         ok_t = e["?t"] in (v, ("call", "f64::floor", v), ("call", "f64::trunc", v))
         return okg and ok_t, why or ("converted value %s" % T.show(e["?t"])), tf
+    e3 = M(("if", "?c", ("if", "?x", FLOATV, ("ctor", "Number::Integer", ("cast", "f64", "i64", "?t"))), FLOATV), tf)
+    if e3 is not None and integral_test(e3["?c"], v):
+        # the range written as an exclusion (guard clauses): integral (hence not NaN), and neither below -2^63 nor at or above 2^63
+        from .c09 import exclusion_ok
+        okx, why = exclusion_ok(e3["?x"], e3["?t"], nan_excluded=True)
+        ok_t = e3["?t"] in (v, ("call", "f64::floor", v), ("call", "f64::trunc", v))
+        return okx and ok_t, why or ("converted value %s" % T.show(e3["?t"])), tf
     e2 = M(("if", "?c", ("ctor", "Number::Integer", ("cast", "f64", "i64", "?t")), FLOATV), tf)
     if e2 is not None:
         conj = []
@@ -101,7 +108,12 @@ def main(tier):
         if g.evaluator != "eval_number" or not g.thir or g.derived or g is ff:
             continue
         nfn += 1
-        nother += cast_guard_rule(run, m.tb.fn_term(g), "%s (%s)" % (g.key, g.file), "door|%s" % g.key.replace("eval_number::", ""))
+        # (helpers inlined and named constants folded: a range test moved into `fn in_i64_range(x)` is the same guard)
+        try:
+            tg = m.tb.inline_helpers(m.tb.fn_term(g))
+        except Exception:
+            tg = m.tb.fn_term(g)
+        nother += cast_guard_rule(run, tg, "%s (%s)" % (g.key, g.file), "door|%s" % g.key.replace("eval_number::", ""))
     run.ob(True, "door-census", "C18", "eval_number", sample={"functions_scanned": nfn, "f64_to_Integer_casts_outside_From": nother})
     run.floor("eval_number functions scanned for double->Integer conversions", nfn, 15)
     return run.finish("decision-tree summary of From<i64>/From<f64>, integrality test from an enumerated exact set, guard constants folded exactly, identity flow on the Float branch", "./check C18 --tier %s" % tier, exhaustive=True)
